@@ -3,8 +3,12 @@
     with the observed Keys (as first-appearance numbers, i.e. the == classes),
     Key.Get per flattened field, Key.String, Fields / FlattenedFields names and
     NonSingularFields; compared with the model, and checked directly against the
-    specification predicates of Properties/C08.v. *)
-From Perf Require Import Base.Bytes Base.Sx Model.Name Model.Extract Model.Key Model.Projection.
+    specification predicates of Properties/C08.v.
+
+    The model the real code is compared with is the REPAIRED one
+    (Model/ProjectionTx.v, hooks/fix_c08_failed_parse_rollback.diff): a Parse
+    call that returns an error leaves no trace in the parser. *)
+From Perf Require Import Base.Bytes Base.Sx Model.Name Model.Extract Model.Key Model.Projection Model.ProjectionTx.
 
 (** ** case format *)
 Record fobs := mkFO { fo_name : bytes; fo_tuple : bool; fo_subs : list bytes }.
@@ -217,14 +221,34 @@ Fixpoint forallb2 {A B} (f : A -> B -> bool) (a : list A) (b : list B) : bool :=
   | _, _ => false
   end.
 
-Definition run_corr (ops : list op) (outs : list (list Z)) (obs : list pobs) : bool :=
-  let '(w, mo) := run_ops new_world ops in
+Definition run_corr_with (run : world -> list op -> world * list out)
+    (ops : list op) (outs : list (list Z)) (obs : list pobs) : bool :=
+  let '(w, mo) := run new_world ops in
   let '(codes, seen) := renumber ops mo [] in
   zll_eqb codes outs
   && forallb2 (fun pi o => match nth_error (w_projs w) pi with
                            | Some p => proj_corr p (nth pi seen []) o
                            | None => false end)
               (seq 0 (length (w_projs w))) obs.
+
+(** the repaired Parse: a failing call is rolled back (streams without failing
+    Parse calls: the same as [run_ops], Proofs/ProjectionTx.v run_ops_tx_same) *)
+Definition run_corr := run_corr_with run_ops_tx.
+
+(** the observations a model run would hand to the judge (used by the examples
+    of Properties/C08.v to evaluate [free_ok] on the unrepaired and on the
+    repaired model) *)
+Definition model_obs (run : world -> list op -> world * list out) (ops : list op)
+  : list (list Z) * list pobs :=
+  let '(w, mo) := run new_world ops in
+  let '(codes, seen) := renumber ops mo [] in
+  (codes,
+   map (fun pi => match nth_error (w_projs w) pi with
+                  | Some p => mkPO (obs_fields p) (map (field_name p) (flat p))
+                                   (map (fun k => nth k (obs_keys p) (mkKO [] [])) (nth pi seen []))
+                                   [] [] []
+                  | None => mkPO [] [] [] [] [] []
+                  end) (seq 0 (length (w_projs w)))).
 
 Definition corr_ok (c : case) : bool :=
   match c with
@@ -264,11 +288,14 @@ Fixpoint spec_string (names gets : list bytes) (acc : bytes) : bytes :=
   | _, _ => acc
   end.
 
+(** The property says nothing about the TEXT Key.String returns, so the
+    specification predicate does not look at it (the exact text, "name:value"
+    pairs joined by one blank, is compared with the model in [corr_ok] only;
+    [spec_string] is kept for that documentation purpose). *)
 Definition generic_ok (o : pobs) : bool :=
   pairwise_distinct (map ko_gets (po_keys o))
   && blist_eqb (spec_flat o) (po_flat o)
-  && forallb (fun k => Nat.eqb (length (ko_gets k)) (length (po_flat o))
-                       && beq (spec_string (po_flat o) (ko_gets k) []) (ko_string k)) (po_keys o)
+  && forallb (fun k => Nat.eqb (length (ko_gets k)) (length (po_flat o))) (po_keys o)
   && forallb (fun '(ks, got) => nat_list_eqb (spec_nonsing o ks) got) (po_nonsing o).
 
 (** exclusions: every specific key named in any expression *)
@@ -412,9 +439,185 @@ Fixpoint lossless_ok (ex : list expr) (rs : list (result * list (list Z))) : boo
 Definition judged (ex : list expr) (rs : list (result * list (list Z))) : list (result * list (list Z)) :=
   if existsb e_unit ex then filter (fun x => negb (is_nil (r_units (fst x)))) rs else rs.
 
+(** ** free histories: any interleaving of Parse (failing calls included),
+    Residue, Project, ProjectValues, judged declaratively from the INPUTS
+
+    Which Parse calls returned a projection is read off the observed outputs.
+    The exclusions are those of the property: "every specific key named in any
+    of them" - of the projections, i.e. of the calls that RETURNED one; an
+    expression that was rejected names nothing.
+
+    What is demanded of every Key returned for a result [r] by projection [pi],
+    read against the FINAL field set of [pi] (first sentence of the property: a
+    key returns for each field exactly the value that was extracted; with
+    [pairwise_distinct] of [generic_ok]: two Keys are equal iff these tuples are):
+    - a field named by a specific key: [extract key] of r (C05);
+    - a sub-field [k] of a .config group: the value of the FILE key [k] of r,
+      "" when r has none;
+    - .unit: "" from Project, the i-th measurement's unit in the i-th Key from
+      ProjectValues (one Key per measurement);
+    - .fullname: the name with the parts of the excluded sub-name keys [E]
+      deleted.
+    The top-level fields are those of the expression (of Residue: the groups no
+    earlier projection took). The sub-fields [S] of every .config group of [pi]:
+    no duplicates, [lo] included in [S] included in [hi], where [lo] = the file
+    keys of the results projected through [pi] that no successful Parse of the
+    whole history names, [hi] = those that no successful Parse made BEFORE that
+    projection call names.
+
+    The contract (projection.go: the .config closure "doesn't get called until
+    we've parsed all projections"; the property's quantifier: expressions
+    parsed in every order, THEN streams of results) puts every Parse before the
+    first Project. For such histories [lo] = [hi] = the file keys seen minus
+    every specific key named in any projection, and [E] = all sub-name keys
+    named in any projection: the statement of the property, exactly. For a
+    history with a Parse after a Project the exclusion clause is outside the
+    contract; the judge then still demands the values above and accepts for [E]
+    the keys named before the first use of a .fullname field or those named
+    before the call judged. *)
+Record fstate := mkFS {
+  fs_projs : list (bool * list pspec);  (* per projection: ParseWithUnit?, its top-level fields *)
+  fs_cfg : list bytes;                  (* configuration keys named by successful Parse calls so far *)
+  fs_full : list bytes;                 (* name keys named by successful Parse calls so far *)
+  fs_havecfg : bool;                    (* .config taken by an earlier projection / residue *)
+  fs_havefull : bool;
+  fs_efirst : option (list bytes);      (* [fs_full] at the first projection through a .fullname field *)
+  fs_seen : list (list bytes);          (* per projection: file keys of the results projected through it *)
+  fs_hi : list (list bytes)             (* per projection: those not named by a Parse made before the call *)
+}.
+
+Definition fs_new : fstate := mkFS [] [] [] false false None [] [].
+
+Definition has_field (k : bytes) (fs : list pspec) : bool := existsb (fun s => beq (ps_key s) k) fs.
+Definition named_cfg (fs : list pspec) : list bytes :=
+  filter (fun k => negb (is_group_key k) && negb (is_fullname_key k)) (map ps_key fs).
+Definition named_full (fs : list pspec) : list bytes :=
+  filter (fun k => negb (is_group_key k) && is_fullname_key k) (map ps_key fs).
+
+Definition fs_add_proj (st : fstate) (wu : bool) (fs : list pspec) : fstate :=
+  mkFS (fs_projs st ++ [(wu, fs)]) (fs_cfg st ++ named_cfg fs) (fs_full st ++ named_full fs)
+       (fs_havecfg st || has_field key_config fs) (fs_havefull st || has_field key_fullname fs)
+       (fs_efirst st) (fs_seen st ++ [[]]) (fs_hi st ++ [[]]).
+
+Definition fs_residue_fields (st : fstate) : list pspec :=
+  (if fs_havecfg st then [] else [spec_first key_config])
+  ++ (if fs_havefull st then [] else [spec_first key_fullname]).
+
+Fixpoint tuple_E (E : list bytes) (fs : list pspec) (fo : list fobs) (r : result) : option (list bytes) :=
+  match fs, fo with
+  | [], [] => Some []
+  | s :: fs', f :: fo' =>
+      do rest <- tuple_E E fs' fo' r;
+      if beq (ps_key s) key_config then
+        if fo_tuple f && beq (fo_name f) key_config then Some (map (file_val r) (fo_subs f) ++ rest) else None
+      else if fo_tuple f then None
+      else if negb (beq (fo_name f) (ps_key s)) then None
+      else if beq (ps_key s) key_fullname then Some (extractor_fullname E (r_name r) :: rest)
+      else Some (extract (ps_key s) (r_name r) (r_cfg r) :: rest)
+  | _, _ => None
+  end.
+
+Definition key_is (o : pobs) (id : Z) (ts : list (list bytes)) : bool :=
+  match gets_of o id with Some g => existsb (blist_eqb g) ts | None => false end.
+
+(** one Project ([values] = false) / ProjectValues call *)
+Definition free_op_ok (Es : list (list bytes)) (wu : bool) (fs : list pspec) (o : pobs)
+    (values : bool) (r : result) (ids : list Z) : bool :=
+  let fo := if wu then removelast (po_fields o) else po_fields o in
+  let ts := flat_map (fun E => match tuple_E E fs fo r with Some t => [t] | None => [] end) Es in
+  (if wu then match rev (po_fields o) with
+              | f :: _ => beq (fo_name f) key_unit && negb (fo_tuple f)
+              | [] => false end
+   else true)
+  && negb (is_nil ts)
+  && if values then
+       forallb2 (fun u id => key_is o id (map (fun t => if wu then t ++ [u] else t) ts)) (r_units r) ids
+     else match ids with
+          | [id] => key_is o id (map (fun t => if wu then t ++ [[]] else t) ts)
+          | _ => false
+          end.
+
+Definition add_new (l : list bytes) (ks : list bytes) : list bytes :=
+  fold_left (fun acc k => if mem k acc then acc else acc ++ [k]) ks l.
+
+Definition free_step (obs : list pobs) (st : fstate) (o : op) (out : list Z) : option fstate :=
+  match o with
+  | OpParse wu fs =>
+      match out with
+      | [1%Z] => Some (fs_add_proj st wu fs)
+      | [0%Z] => Some st
+      | _ => None
+      end
+  | OpResidue =>
+      match out with
+      | [] => let st' := fs_add_proj st false (fs_residue_fields st) in
+              Some (mkFS (fs_projs st') (fs_cfg st') (fs_full st') true true
+                         (fs_efirst st') (fs_seen st') (fs_hi st'))
+      | _ => None
+      end
+  | OpProject pi r | OpProjectValues pi r =>
+      match nth_error (fs_projs st) pi, nth_error obs pi with
+      | Some (wu, fs), Some ob =>
+          let ef := if has_field key_fullname fs
+                    then match fs_efirst st with Some e => Some e | None => Some (fs_full st) end
+                    else fs_efirst st in
+          let Es := match ef with Some e => [e; fs_full st] | None => [fs_full st] end in
+          let values := match o with OpProjectValues _ _ => true | _ => false end in
+          if free_op_ok Es wu fs ob values r out then
+            Some (mkFS (fs_projs st) (fs_cfg st) (fs_full st) (fs_havecfg st) (fs_havefull st) ef
+                       (put_nth [] pi (add_new (nth pi (fs_seen st) []) (file_keys r)) (fs_seen st))
+                       (put_nth [] pi (add_new (nth pi (fs_hi st) [])
+                                        (filter (fun k => negb (mem k (fs_cfg st))) (file_keys r))) (fs_hi st)))
+          else None
+      | _, _ => None
+      end
+  end.
+
+Fixpoint free_walk (obs : list pobs) (st : fstate) (ops : list op) (outs : list (list Z)) : option fstate :=
+  match ops, outs with
+  | [], [] => Some st
+  | o :: ops', out :: outs' =>
+      match free_step obs st o out with
+      | Some st' => free_walk obs st' ops' outs'
+      | None => None
+      end
+  | _, _ => None
+  end.
+
+Fixpoint nodupb (l : list bytes) : bool :=
+  match l with [] => true | x :: l' => negb (mem x l') && nodupb l' end.
+
+Definition inclb (a b : list bytes) : bool := forallb (fun k => mem k b) a.
+
+(** the final shape of one projection: its top-level fields are those of the
+    expression (+ .unit), its .config groups hold the right sub-fields *)
+Definition free_shape_ok (call_cfg : list bytes) (wu : bool) (fs : list pspec)
+    (seen hi : list bytes) (o : pobs) : bool :=
+  let fo := if wu then removelast (po_fields o) else po_fields o in
+  let lo := filter (fun k => negb (mem k call_cfg)) seen in
+  Nat.eqb (length (po_fields o)) (length fs + if wu then 1 else 0)
+  && forallb2 (fun s f =>
+       if beq (ps_key s) key_config
+       then fo_tuple f && beq (fo_name f) key_config
+            && nodupb (fo_subs f) && inclb lo (fo_subs f) && inclb (fo_subs f) hi
+       else negb (fo_tuple f) && beq (fo_name f) (ps_key s)) fs fo.
+
+Definition free_ok (ops : list op) (outs : list (list Z)) (obs : list pobs) : bool :=
+  forallb generic_ok obs
+  && match free_walk obs fs_new ops outs with
+     | None => false
+     | Some st =>
+         Nat.eqb (length obs) (length (fs_projs st))
+         && forallb2 (fun pi o =>
+              match nth_error (fs_projs st) pi with
+              | Some (wu, fs) => free_shape_ok (fs_cfg st) wu fs (nth pi (fs_seen st) []) (nth pi (fs_hi st) []) o
+              | None => false
+              end) (seq 0 (length obs)) obs
+     end.
+
 Definition prop_ok (c : case) : bool :=
   match c with
-  | CFree _ _ obs _ => forallb generic_ok obs
+  | CFree ops outs obs _ => free_ok ops outs obs
   | CProto ex st runs _ =>
       forallb (run_ok ex st) runs
       && match runs with
@@ -495,7 +698,7 @@ Definition corr_ok8 (c : case8) : bool :=
 Definition prop_ok8 (c : case8) : bool :=
   match c with
   | K8 c => prop_ok c
-  | KLate ops outs obs late => forallb generic_ok obs && forallb (late_ok ops outs) late
+  | KLate ops outs obs late => free_ok ops outs obs && forallb (late_ok ops outs) late
   end.
 
 Definition run_case (s : sx) : N :=
